@@ -6,6 +6,8 @@
 #include "../kit/tracked.hpp"
 #include <optional>
 using namespace vk;
+template<class A> struct LazyRange { A const* a; auto extensions() const { return a->extensions(); } auto begin() const { return a->begin(); } auto end() const { return a->end(); } auto size() const { return a->size(); } };
+
 
 #ifndef H_D
 #define H_D 2
@@ -36,7 +38,7 @@ static void build_scenarios(bool thorough) {
 		{"ctor(view)", 7, {0}, false}, {"ctor(first,last)", 8, {0}, false}, {"ctor(init-list)", 9, {0}, false},
 		{"copy-assign", 10, {0, 1, 2}, true}, {"move-assign", 11, {0, 1, 2}, true}, {"assign-from-view", 12, {1, 2}, true}, {"assign-from-other-element-type", 13, {1, 2}, true}, {"assign-init-list", 14, {1, 2}, false}, {"assign(first,last)", 15, {1, 2}, true},
 		{"reextent(x)", 16, {0, 2}, false}, {"reextent(x,v)", 17, {0, 2}, false}, {"reextent(&&)", 18, {0, 2}, false}, {"clear", 19, {1}, true}, {"swap", 20, {1, 2}, true}, {"decay(+)", 21, {0}, false},
-		{"view=view", 22, {1}, true}, {"view=move(view)", 23, {1}, true}, {"view.elements()=elements()", 24, {1}, true}, {"static_array-copy-assign", 25, {1}, true}, {"static_array-copy-ctor", 26, {0}, false}, {"static_array-move-ctor", 27, {0}, false}, {"view-fill", 28, {1}, true}, {"view-swap", 29, {1}, true}, {"copy-assign(unequal-alloc)", 30, {1}, true}, {"assign-from-view(unequal-alloc)", 31, {1}, true}, {"move-assign(unequal-alloc)", 32, {1, 2}, false}, {"move-ctor(unequal-alloc)", 33, {0}, false}, {"assign-from-const-view", 34, {1}, true},
+		{"view=view", 22, {1}, true}, {"view=move(view)", 23, {1}, true}, {"view.elements()=elements()", 24, {1}, true}, {"static_array-copy-assign", 25, {1}, true}, {"static_array-copy-ctor", 26, {0}, false}, {"static_array-move-ctor", 27, {0}, false}, {"view-fill", 28, {1}, true}, {"view-swap", 29, {1}, true}, {"copy-assign(unequal-alloc)", 30, {1}, true}, {"assign-from-view(unequal-alloc)", 31, {1}, true}, {"move-assign(unequal-alloc)", 32, {1, 2}, false}, {"move-ctor(unequal-alloc)", 33, {0}, false}, {"assign-from-const-view", 34, {1}, true}, {"assign-from-lazy-range", 35, {1, 2}, true},
 	};
 	for(auto const& sh : shapes) for(auto const& o : ops) for(int pr : o.priors) {
 		bool noalloc = o.noalloc_same && (pr != 2 || o.id == 11 || o.id == 20) && !(pr == 0 && o.id == 10);
@@ -116,6 +118,7 @@ template<int DD> int run_scn_t(Scn const& s, int fk, long k, long* counts /*out 
 			case 31: *A = (*B)(); break;
 			case 32: *A = std::move(*B); break;   // non-propagating, unequal allocator instances: the block cannot change hands, the elements are moved
 			case 33: C.emplace(std::move(*B), Alloc(1)); break;
+			case 35: *A = LazyRange<Arr>{&*B}; break;   // a right-hand side that is neither a view nor an array (extensions(), begin(), end() only): the kind of object the lazy BLAS / FFT expressions are
 			case 34: if constexpr(DD >= 2) { Arr Bt(B->transposed()); faults().reset_counts(); if(k > 0) fk_at(fk) = k; a0 = ledger().n_alloc; auto const& cv = std::as_const(Bt).transposed(); *A = cv; } else { Arr const& Bc = *B; auto const& cv = Bc.sliced(0, Bc.size()); *A = cv; } break;  // a named read-only view (const_subarray) of equal extents and non-canonical strides
 			default: break;
 			}
